@@ -127,15 +127,17 @@ type e1run struct {
 	sizeHook   func(r *e1run, ok bool)
 	finalHook  func(r *e1run)
 	stepHook   func(r *e1run)
-	nProbes    int
-	faulted    bool // a storage fault was injected: the reference model no longer applies, only retention rules do
-	medNext    []int
-	medCount   []map[int]int
-	medEnd     []map[int]int64
-	props      map[string]bool // which properties' oracles are evaluated (nil: all)
-	fullFetch  bool            // re-fetch every listed URI at every observation
-	pruned     bool            // the word left the property's domain (a write that has to fail failed): not a violation
-	closed     bool            // a hook has called Close
+	// c06Hints: preload-hint URIs seen so far (C06) -> the bytes the first successful GET returned (nil: not fetched yet)
+	c06Hints  map[string][]byte
+	nProbes   int
+	faulted   bool // a storage fault was injected: the reference model no longer applies, only retention rules do
+	medNext   []int
+	medCount  []map[int]int
+	medEnd    []map[int]int64
+	props     map[string]bool // which properties' oracles are evaluated (nil: all)
+	fullFetch bool            // re-fetch every listed URI at every observation
+	pruned    bool            // the word left the property's domain (a write that has to fail failed): not a violation
+	closed    bool            // a hook has called Close
 }
 
 func (r *e1run) add(prop, sig, format string, a ...any) {
